@@ -21,8 +21,12 @@ Definition sigma2 (l : list (V3 T)) : T := (n1 /! ncount l) *! tsum (map nrm2 (c
 (* cov_xy = 1/n * sum outer(y_i - mean_y, x_i - mean_x) *)
 Definition cov_xy (x y : list (V3 T)) : M3 T :=
   mscale (n1 /! ncount x) (msum (map (fun p => outer (snd p) (fst p)) (combine (centred x) (centred y)))).
+(* tol = max(eps, d.max() * max(cov.shape) * eps): absolute floor + relative part (as numpy.linalg.matrix_rank);
+   d is sorted, so d.max() = d[0] *)
+Definition rank_tol (d : V3 T) : T := let r := (vx d *! nofZ 3) *! eps in if eps <?! r then r else eps.
 Definition rank_ok (d : V3 T) : bool :=
-  let c := (if eps <?! vx d then 1 else 0) + (if eps <?! vy d then 1 else 0) + (if eps <?! vz d then 1 else 0) in
+  let tol := rank_tol d in
+  let c := (if tol <?! vx d then 1 else 0) + (if tol <?! vy d then 1 else 0) + (if tol <?! vz d then 1 else 0) in
   negb (Nat.ltb c 2).
 Definition kabsch_sign (u v : M3 T) : T := if (det u *! det v) <?! n0 then nopp n1 else n1.
 
